@@ -78,6 +78,8 @@ type Server struct {
 	StaleAtList []int
 	Inflight    int
 	MaxFlight   int
+	// OnWatchFrame, when set, runs right after a stream has handed over its idx-th (0-based) frame.
+	OnWatchFrame func(idx int)
 	// OnListReturn, when set, runs just before the n-th list call returns its (good) answer.
 	OnListReturn func(n int)
 }
@@ -300,6 +302,14 @@ func (s *Server) List(ctx context.Context, opts metav1.ListOptions) (runtime.Obj
 			l.Items = append(l.Items, runtime.RawExtension{Object: &notAList{}})
 		}
 		return l, nil
+	case "nilitem":
+		// a generic list one of whose entries decoded to nothing at all
+		l := &metav1.List{ListMeta: snap.ListMeta}
+		for i := range snap.Items {
+			l.Items = append(l.Items, runtime.RawExtension{Object: &snap.Items[i]})
+		}
+		l.Items = append(l.Items, runtime.RawExtension{})
+		return l, nil
 	case "noaccessor":
 		return &notAList{}, nil
 	}
@@ -483,6 +493,9 @@ func (st *stream) pump() {
 			ev := watch.Event{Type: e.typ, Object: e.obj}
 			if !st.send(ev) {
 				return
+			}
+			if st.s.OnWatchFrame != nil {
+				st.s.OnWatchFrame(idx)
 			}
 			if f.Kind == "dup" && idx == f.After {
 				if !st.send(ev) {
